@@ -477,6 +477,14 @@ func report(eng *Engine, prop, tier string, seed int, specs []*HarnessSpec, resu
 					ok, out = eng.ConfirmInterp(s, v)
 				} else {
 					ok, out = nativeReplay(rp, verifDir, repo, gowork, files, v)
+					if !ok && strings.Contains(s.Opts["replay"], "sched") && hasSchedChoice(v) {
+						ok2, out2 := eng.ConfirmSchedule(s, v)
+						if ok2 {
+							ok, out = true, out2+" (native: "+firstLines(out, 1)+")"
+						} else {
+							out = out + " | " + out2
+						}
+					}
 				}
 				detail = out
 				if ok {
@@ -709,10 +717,16 @@ func nativeReplay(replayPath, verifDir, repo, gowork string, files []*harnessFil
 	if hf == nil {
 		return false, "harness file not found"
 	}
-	return runNative(replayPath, verifDir, repo, gowork, files, hf, v.Kind)
+	return runNativeMsg(replayPath, verifDir, repo, gowork, files, hf, v.Kind, v.Msg)
 }
 
 func runNative(replayPath, verifDir, repo, gowork string, files []*harnessFile, hf *harnessFile, kind string) (bool, string) {
+	return runNativeMsg(replayPath, verifDir, repo, gowork, files, hf, kind, "")
+}
+
+// runNativeMsg: when wantMsg is given, an assertion failure only confirms the
+// counterexample if it is the same assertion that failed symbolically.
+func runNativeMsg(replayPath, verifDir, repo, gowork string, files []*harnessFile, hf *harnessFile, kind, wantMsg string) (bool, string) {
 	scratch, err := os.MkdirTemp("", "gosmt-replay-")
 	if err != nil {
 		return false, err.Error()
@@ -739,11 +753,13 @@ func runNative(replayPath, verifDir, repo, gowork string, files []*harnessFile, 
 	}
 	write(filepath.Join(repo, hf.pkgDir, "zz_verif_api.go"), []byte(strings.Replace(string(tmpl), "PKGNAME", hf.pkgName, 1)))
 	var sb strings.Builder
-	sb.WriteString("//go:build verif\n\npackage " + hf.pkgName + "\n\nimport \"testing\"\n\nfunc TestZZReplay(t *testing.T) {\n\tverifRunReplay(map[string]func(){\n")
+	// the replay runs inside a synctest bubble: virtual time (verifAdvance =
+	// time.Sleep) and quiescence (verifQuiesce = synctest.Wait) behave as in the engine
+	sb.WriteString("//go:build verif\n\npackage " + hf.pkgName + "\n\nimport (\n\t\"testing\"\n\t\"testing/synctest\"\n)\n\nfunc TestZZReplay(t *testing.T) {\n\tsynctest.Test(t, func(t *testing.T) {\n\tverifRunReplay(map[string]func(){\n")
 	for _, n := range names {
 		fmt.Fprintf(&sb, "\t\t%q: %s,\n", n, n)
 	}
-	sb.WriteString("\t})\n}\n")
+	sb.WriteString("\t})\n\t})\n}\n")
 	write(filepath.Join(repo, hf.pkgDir, "zz_verif_replay_test.go"), []byte(sb.String()))
 	ovb, _ := json.Marshal(map[string]interface{}{"Replace": repl})
 	ovf := filepath.Join(scratch, "overlay.json")
@@ -768,6 +784,9 @@ func runNative(replayPath, verifDir, repo, gowork string, files []*harnessFile, 
 	}
 	switch {
 	case strings.Contains(line, "assert-failed"):
+		if wantMsg != "" && !strings.Contains(line, wantMsg) {
+			return false, line + "  [a different assertion than the one violated symbolically]"
+		}
 		return kind == "assert", line
 	case strings.Contains(line, "panicked"):
 		return kind == "panic", line
